@@ -71,11 +71,16 @@ def run_scenario(sc, variant, round_tag=""):
             for m in (t2core, memidx, t2h):
                 if hasattr(m, "dt"):
                     m.dt = shim
+        ctxs = {}
         for t in sc["turns"]:
             now = "auto"
             if variant.get("now_none"):
                 now = None
-            env.run(t["agent"], t["text"], t["turn"], now_ms=t["now_ms"], now=now, plan=t.get("plan"), vclock=vc)
+            key = t["agent"] if variant.get("reuse_ctx") == "per-agent" else "*"
+            r_ = env.run(t["agent"], t["text"], t["turn"], now_ms=t["now_ms"], now=now, plan=t.get("plan"), vclock=vc,
+                         ctx_obj=ctxs.get(key) if variant.get("reuse_ctx") else None)
+            if variant.get("reuse_ctx"):
+                ctxs[key] = r_["ctx"]
         b = env.bundle()
         out = {"lines": b["lines"], "excs": b["excs"], "logs": {k: v.decode("utf-8", "surrogateescape") for k, v in b["logs"].items()},
                "snaps": {k: v.decode("utf-8", "surrogateescape") for k, v in b["snaps"].items()},
